@@ -9,6 +9,7 @@ free text in every relay/reply template; the serialiser's colon condition; and t
 to split off the trailing parameter (with a constructive counterexample for the wrong idiom).
 """
 from .common import *  # noqa: F401,F403
+from .common import _recv_mut
 from .C03 import cx_census
 from .C01 import select_arms
 
@@ -543,6 +544,24 @@ def check(cx):
             if how:
                 r14.violation('parse_from_message|%s.%s|%s' % (variant, fname, how[0]), 'Command::%s.%s is not the parameter as sent (%s): the '
                               'handler applies a different value than the one relayed in the original message' % (variant, fname, how[0]), loc=fpm)
+
+    # ... and a list taken from a parameter is not edited afterwards (de-duplicated, sorted, shortened): lists of one command are
+    # paired by position (JOIN channels / keys, MODE letters / arguments)
+    COLL_ALTER = ('dedup', 'dedup_by', 'dedup_by_key', 'sort', 'sort_unstable', 'sort_by', 'sort_by_key', 'retain', 'remove', 'truncate', 'pop',
+                  'swap_remove', 'reverse', 'drain', 'clear', 'insert')
+    from_params = {e.data['lhs'] for e in wpm.events if e.kind == 'assign' and e.data.get('init') and mentions(e.data['rhs'], PARAMS)}
+    for e in wpm.events:
+        if e.kind == 'call' and not e.data.get('local') and e.data['name'] in COLL_ALTER and e.data['args'] and \
+                (e.data['args'][0] in from_params or (mentions(e.data['args'][0], PARAMS) and e.data['args'][0] != PARAMS
+                                                      and _recv_mut(e, prog))):
+            mv = e.data['args'][0]
+            owner = [(leaf[1][2], fname) for c_, leaf in cases(wpm.retval)
+                     if isinstance(leaf, tuple) and leaf[:1] == ('ok',) and isinstance(leaf[1], tuple) and leaf[1][:1] == ('adt',)
+                     for fname, fval in leaf[1][3] if mentions(fval, mv)]
+            v_, f_ = owner[0] if owner else ('?', show_term(mv))
+            r14.violation('parse_from_message|%s.%s|%s' % (v_, f_, e.data['name']), 'the list Command::%s.%s is edited (%s) after it was taken '
+                          'from the parameter: its items no longer line up with the list they are paired with by position' % (v_, f_, e.data['name']),
+                          loc=cx.loc(e.node))
 
     r9 = cx.rule('R13.9', 'offset coordinates of re-sliced pieces', floor=0, kind='arithmetic')
     n9 = check_offset_coordinates(cx, r9, wfs, ffs)
